@@ -141,6 +141,17 @@ def leaf_strategy():
   return st.one_of(arr, arr, npscalar, py)
 
 
+def long_seq():
+  """Lists/tuples with more than ten entries (index keys '10', '11', ... sort
+  before '2' as strings), small distinct leaves."""
+  return st.tuples(st.sampled_from(['list', 'tuple']), st.integers(11, 14),
+                   st.integers(0, 1000)).map(lambda t: {
+                       't': t[0], 'items': [
+                           {'t': 'arr', 'dtype': 'int32', 'shape': [2],
+                            'layout': 'C', 'seed': t[2] + i, 'jax': False}
+                           for i in range(t[1])]})
+
+
 def tree_strategy(max_leaves=8):
   def ext(inner):
     items = st.lists(inner, max_size=4)
@@ -153,6 +164,7 @@ def tree_strategy(max_leaves=8):
         keyed.map(lambda kv: {'t': 'fdict', 'items': [list(x) for x in kv]}),
         items.map(lambda xs: {'t': 'list', 'items': xs}),
         items.map(lambda xs: {'t': 'tuple', 'items': xs}),
+        long_seq(),
         fielded.map(lambda kv: {'t': 'nt', 'items': [list(x) for x in kv]}),
         st.tuples(fielded, st.lists(st.sampled_from(['s1', 's2']), max_size=2,
                                     unique=True)).map(
@@ -475,7 +487,17 @@ def replace_at(n, path, fn):
 
 
 MUTATIONS = ['add_key', 'longer', 'shorter', 'rename_field', 'surplus_state',
-             'permute', 'drop_state_key']
+             'permute', 'drop_state_key', 'reorder_state', 'reorder_state',
+             'wrong_index']
+
+
+def state_replace_at(state, path, fn):
+  """Copy of a (plain-dict) state dict with the sub-dict at path replaced."""
+  if not path:
+    return fn(state)
+  out = dict(state)
+  out[path[0]] = state_replace_at(state[path[0]], path[1:], fn)
+  return out
 
 
 def nomix_tree():
@@ -491,6 +513,7 @@ def nomix_tree():
         keyed.map(lambda kv: {'t': 'fdict', 'items': [list(x) for x in kv]}),
         items.map(lambda xs: {'t': 'list', 'items': xs}),
         items.map(lambda xs: {'t': 'tuple', 'items': xs}),
+        long_seq(),
         fielded.map(lambda kv: {'t': 'nt', 'items': [list(x) for x in kv]}),
         fielded.map(lambda kv: {'t': 'dc', 'items': [list(x) for x in kv],
                                 'statics': []}))
@@ -509,7 +532,11 @@ def nomix_tree():
         '*target* is mutated (extra key/field, longer or shorter list/tuple, '
         'renamed namedtuple/dataclass field) -> ValueError naming the path; '
         'a surplus dict key in the *state* is ignored; a target with permuted '
-        'dict/namedtuple order restores every value under its own key; '
+        'dict/namedtuple order restores every value under its own key; the '
+        '*state* sub-dict of any container re-ordered (string-sorted, '
+        'reversed, rotated) restores identically and a sequence state whose '
+        'index keys are not 0..n-1 raises; lists/tuples of 11-14 entries '
+        'included; '
         'non-trivial = mutated container is nested (path length>=1)')
 def mismatch(case, ctx):
   n, mut, i, j, via_bytes = case
@@ -520,12 +547,16 @@ def mismatch(case, ctx):
       'longer': ('list', 'tuple'), 'shorter': ('list', 'tuple'),
       'rename_field': ('nt', 'dc'), 'surplus_state': ('dict', 'fdict'),
       'permute': ('dict', 'fdict', 'nt'),
+      'reorder_state': ('dict', 'fdict', 'nt', 'dc', 'list', 'tuple'),
+      'wrong_index': ('list', 'tuple'),
   }[mut]
   cands = [(p, c) for p, c in conts if c['t'] in kinds]
   if mut in ('shorter', 'rename_field', 'drop_state_key'):
     cands = [(p, c) for p, c in cands if len(c['items']) >= 1]
-  if mut == 'permute':
+  if mut in ('permute', 'reorder_state'):
     cands = [(p, c) for p, c in cands if len(c['items']) >= 2]
+  if mut == 'wrong_index':
+    cands = [(p, c) for p, c in cands if len(c['items']) >= 1]
   if not cands:
     ctx.note(labels=['no-candidate'])
     return
@@ -586,6 +617,53 @@ def mismatch(case, ctx):
     expect_error = False
   saved = build(saved_spec)
   target = build(target_spec)
+  if mut in ('reorder_state', 'wrong_index'):
+    # the *state* is edited: same entries in another insertion order (sorted
+    # as strings, reversed or rotated) must restore identically; a sequence
+    # sub-dict of the right length whose index keys are not 0..n-1 must raise
+    with sut('to_state_dict'):
+      sd = ser.to_state_dict(saved)
+    def edit(sub):
+      require(isinstance(sub, dict), lambda: f'state at {path} is not a dict')
+      keys = list(sub)
+      if mut == 'reorder_state':
+        how = j % 3
+        if how == 0:
+          keys = sorted(keys, key=str)
+          if keys == list(sub):
+            keys = keys[::-1]
+        elif how == 1:
+          keys = keys[::-1]
+        else:
+          k = 1 + (j // 3) % (len(keys) - 1)
+          keys = keys[k:] + keys[:k]
+        return {k: sub[k] for k in keys}
+      k = (j // 3) % len(keys)
+      new = {}
+      for idx, key in enumerate(keys):
+        new[str(len(keys) + (j % 2)) if idx == k else key] = sub[key]
+      return new
+    with sut('edit state'):
+      sd2 = state_replace_at(sd, path, edit)
+    if via_bytes:
+      with sut('msgpack_serialize'):
+        state = ser.msgpack_serialize(sd2)
+    else:
+      state = sd2
+    restore = (lambda: ser.from_bytes(target, state)) if via_bytes else (
+        lambda: ser.from_state_dict(target, state))
+    if mut == 'wrong_index':
+      expect_raises((ValueError, KeyError), restore,
+                    f'restore of a sequence whose state lacks an index at '
+                    f'{path}')
+    else:
+      with sut('restore from re-ordered state'):
+        back = restore()
+      compare(saved, back, ())
+    ctx.note(labels=[mut, cont['t'], 'bytes' if via_bytes else 'state_dict',
+                     'long' if len(cont['items']) > 10 else 'short'],
+             nontrivial=True)
+    return
   with sut('serialise'):
     state = ser.to_bytes(saved) if via_bytes else ser.to_state_dict(saved)
   restore = (lambda: ser.from_bytes(target, state)) if via_bytes else (
